@@ -82,12 +82,14 @@ def verify(quals, sidecar_names=None, repo=None, timeout_ms=10000, keep_smt=Fals
     results = []
     items = []
     index = {}
+    fvs = {}
     for q in quals:
         fr = FuncResult(q)
         results.append(fr)
         t0 = time.time()
         try:
             fv = generate(E, q)
+            fvs[q] = fv
             m, cls, fn, enc = E.fe.find_function(fv.c.opts.get('impl', q))
             fr.source_hash = E.fe.source_hash(fn, m)
             fr.used_contracts = sorted(fv.used_contracts)
@@ -111,6 +113,40 @@ def verify(quals, sidecar_names=None, repo=None, timeout_ms=10000, keep_smt=Fals
             fr.error_kind = 'engine'
         fr.secs = time.time() - t0
     out = solver.discharge(items, timeout_ms=timeout_ms)
+    # second chance for obligations on which E-matching gave up: the goal is split into sub-goals (conjuncts, unfolded ghost
+    # definitions, skolemised quantifiers); the obligation is proved if every sub-goal is
+    retry, rindex = [], {}
+    for key, (fr, ob, text) in index.items():
+        r = out[key]
+        if ob.kind == 'cover' or r['status'] != 'failed' or r['res'] != 'unknown':
+            continue
+        try:
+            leaves = solver.split_goal(ob.goal, getattr(E, 'ghost_defs', {}))
+        except Exception:
+            continue
+        if len(leaves) == 1 and not leaves[0][0] and leaves[0][1].eq(ob.goal):
+            continue
+        q, k = key
+        hs = hyps_for(E, fvs[q], ob)
+        for j, (extra, leaf) in enumerate(leaves):
+            rk = (q, k, j)
+            retry.append((rk, solver.to_smt2(hs + list(extra), leaf), ob.kind))
+            rindex.setdefault(key, []).append(rk)
+    if retry:
+        out2 = solver.discharge(retry, timeout_ms=timeout_ms)
+        for key, rks in rindex.items():
+            sts = [out2[rk]['status'] for rk in rks]
+            if os.environ.get('PYVC_DEBUG_SPLIT'):
+                for rk in rks:
+                    print('SPLIT', index[key][1].name, rk[2], out2[rk]['status'], out2[rk]['reason'][:60], round(out2[rk]['secs'], 1))
+                    if out2[rk]['status'] != 'proved':
+                        open('/tmp/split_%d.smt2' % rk[2], 'w').write([t for k2, t, _ in retry if k2 == rk][0])
+            if all(st == 'proved' for st in sts):
+                out[key] = dict(out[key], status='proved', res='unsat', reason='split into %d sub-goals' % len(rks),
+                                secs=out[key]['secs'] + sum(out2[rk]['secs'] for rk in rks))
+            elif any(st == 'undecided' for st in sts) and not any(st == 'failed' for st in sts):
+                out[key] = dict(out[key], status='undecided', reason='sub-goal timeout',
+                                secs=out[key]['secs'] + sum(out2[rk]['secs'] for rk in rks))
     for key, (fr, ob, text) in index.items():
         r = out[key]
         d = dict(name=ob.name, kind=ob.kind, status=r['status'], secs=round(r['secs'], 3), reason=r['reason'],
